@@ -235,4 +235,322 @@ theorem sdnDigits_none_of_getLast {s : Str} {c : Char} (hc : c ≠ '_') :
     exact absurd hr.1 hc
   · rfl
 
+/-! ### the shape every candidate has -/
+
+/-- head is a letter, or `&` followed by something; all later characters are `[0-9A-Za-z_]` -/
+def Shape : Str → Prop
+  | [] => False
+  | c :: r => (c.isAlpha = true ∨ (c = '&' ∧ r ≠ [])) ∧ r.all okChar = true
+
+def Good (s : Str) : Prop := Shape s ∧ s.length ≤ limit
+
+theorem all_okChar_take {r : Str} (h : r.all okChar = true) (n : Nat) : (r.take n).all okChar = true := by
+  rw [List.all_eq_true] at h ⊢
+  exact fun x hx => h x (List.mem_of_mem_take hx)
+
+theorem all_okChar_drop {r : Str} (h : r.all okChar = true) (n : Nat) : (r.drop n).all okChar = true := by
+  rw [List.all_eq_true] at h ⊢
+  exact fun x hx => h x (List.mem_of_mem_drop hx)
+
+theorem Shape.ne_nil {s : Str} (h : Shape s) : s ≠ [] := by
+  cases s with
+  | nil => exact h.elim
+  | cons c r => simp
+
+theorem Shape.head_ne_underscore {c : Char} {r : Str} (h : Shape (c :: r)) : c ≠ '_' := by
+  rintro rfl
+  rcases h.1 with h1 | ⟨h1, _⟩
+  · revert h1; decide
+  · revert h1; decide
+
+/-- a prefix of length ≥ 1 followed by ok characters keeps the shape, provided the whole is
+    longer than one character when it starts with `&` -/
+theorem Shape.take_append {s t : Str} (h : Shape s) (n : Nat) (hn : 1 ≤ n)
+    (ht : t.all okChar = true) (hlen : 2 ≤ (s.take n ++ t).length) : Shape (s.take n ++ t) := by
+  cases s with
+  | nil => exact h.elim
+  | cons c r =>
+    obtain ⟨m, rfl⟩ : ∃ m, n = m + 1 := ⟨n - 1, by omega⟩
+    simp only [List.take_succ_cons, List.cons_append]
+    refine ⟨?_, ?_⟩
+    · rcases h.1 with h1 | ⟨h1, _⟩
+      · exact Or.inl h1
+      · refine Or.inr ⟨h1, ?_⟩
+        intro hnil
+        simp only [List.take_succ_cons, List.cons_append, List.length_cons, hnil, List.length_nil] at hlen
+        omega
+    · rw [List.all_append, all_okChar_take h.2, ht]; rfl
+
+theorem Shape.take {s : Str} (h : Shape s) (n : Nat) (hn : 2 ≤ n) (hs : 2 ≤ s.length) : Shape (s.take n) := by
+  have := Shape.take_append h n (by omega) (t := []) rfl (by simp [List.length_take]; omega)
+  simpa using this
+
+theorem Shape.append {s t : Str} (h : Shape s) (ht : t.all okChar = true) (hne : t ≠ []) : Shape (s ++ t) := by
+  have h1 : 1 ≤ s.length := List.length_pos_iff.mpr h.ne_nil
+  have h2 : 1 ≤ t.length := List.length_pos_iff.mpr hne
+  have := Shape.take_append h s.length h1 ht (by simp; omega)
+  simpa using this
+
+theorem Shape.lower {s : Str} (h : Shape s) : Shape (lower s) := by
+  cases s with
+  | nil => exact h.elim
+  | cons c r =>
+    simp only [Spydr.Names.lower, List.map_cons]
+    refine ⟨?_, ?_⟩
+    · rcases h.1 with h1 | ⟨h1, h2⟩
+      · left; rw [toLower_isAlpha]; exact h1
+      · right; exact ⟨(toLower_eq_amp c).mpr h1, by simpa using h2⟩
+    · have := h.2
+      rw [List.all_eq_true] at this ⊢
+      intro x hx
+      obtain ⟨y, hy, rfl⟩ := List.mem_map.mp hx
+      rw [okChar_toLower]; exact this y hy
+
+theorem Good.lower {s : Str} (h : Good s) : Good (lower s) :=
+  ⟨h.1.lower, by rw [lower_length]; exact h.2⟩
+
+theorem Good.legal {s : Str} (h : Good s) : Spec.checkEdifIdentifier s = true := by
+  obtain ⟨hs, hl⟩ := h
+  cases s with
+  | nil => exact hs.elim
+  | cons c r =>
+    have hall : r.all Spec.idChar = true := by
+      have := hs.2
+      rw [List.all_eq_true] at this ⊢
+      intro x hx; rw [idChar_eq]; exact this x hx
+    unfold Spec.checkEdifIdentifier
+    simp only [limit, List.length_cons] at hl ⊢
+    rcases hs.1 with h1 | ⟨h1, h2⟩
+    · have hne : (c == '&') = false := by
+        rw [beq_eq_false_iff_ne]; rintro rfl; revert h1; decide
+      simp only [hne, Bool.false_eq_true, if_false, isLetter_eq, h1, hall, Bool.and_true, decide_eq_true_eq]
+      omega
+    · subst h1
+      have : 1 ≤ r.length := List.length_pos_iff.mpr h2
+      simp only [beq_self_eq_true, if_true, hall, Bool.and_true, Bool.and_eq_true, decide_eq_true_eq]
+      omega
+
+/-! ### `lengthFix` -/
+
+theorem lengthFix_of_le {s : Str} (h : s.length ≤ limit) : lengthFix s = s := by
+  unfold lengthFix; rw [if_pos h]
+
+theorem sdnPre_ok : sdnPre.all okChar = true := by decide
+
+theorem all_okChar_digits {ds : Str} (h : ∀ c ∈ ds, c.isDigit = true) : ds.all okChar = true := by
+  rw [List.all_eq_true]; exact fun x hx => okChar_of_isDigit x (h x hx)
+
+/-- the suffix `_sdn_N_` as one string -/
+def suffixOf (ds : Str) : Str := sdnPre ++ ds ++ ['_']
+
+theorem suffixOf_length (ds : Str) : (suffixOf ds).length = ds.length + 6 := by
+  simp [suffixOf, sdnPre]
+
+theorem suffixOf_ok {ds : Str} (h : Digits ds) : (suffixOf ds).all okChar = true := by
+  simp only [suffixOf, List.all_append, sdnPre_ok, all_okChar_digits h.2, Bool.true_and]; decide
+
+theorem suffixOf_ne_nil (ds : Str) : suffixOf ds ≠ [] := by simp [suffixOf, sdnPre]
+
+theorem sdnDigits_some' {s ds : Str} (h : sdnDigits s = some ds) :
+    Digits ds ∧ ∃ base, s = base ++ suffixOf ds := by
+  obtain ⟨hd, base, hb⟩ := sdnDigits_some h
+  exact ⟨hd, base, by rw [hb]; simp [suffixOf]⟩
+
+theorem sdnDigits_append' {ds : Str} (hd : Digits ds) (base : Str) :
+    sdnDigits (base ++ suffixOf ds) = some ds := by
+  have := sdnDigits_append hd base
+  simpa [suffixOf] using this
+
+/-- closed form of `lengthFix` on a too long string that ends with a suffix leaving room -/
+theorem lengthFix_suffix {base ds : Str} (hd : Digits ds)
+    (hlen : limit < (base ++ suffixOf ds).length) (hroom : ds.length + 6 < limit) :
+    lengthFix (base ++ suffixOf ds) = base.take (limit - (ds.length + 6)) ++ suffixOf ds := by
+  unfold lengthFix
+  rw [if_neg (by omega), sdnDigits_append' hd]
+  simp only
+  rw [if_neg (by omega)]
+  have hk : (suffixOf ds).length = ds.length + 6 := suffixOf_length ds
+  have hb : limit - (ds.length + 6) ≤ base.length := by
+    simp only [List.length_append, hk] at hlen; omega
+  congr 1
+  · rw [List.take_append_of_le_length hb]
+  · rw [List.length_append, hk]
+    have : base.length + (ds.length + 6) - (ds.length + 6) = base.length := by omega
+    rw [this, List.drop_left]
+
+theorem lengthFix_length_le (s : Str) : (lengthFix s).length ≤ limit := by
+  unfold lengthFix
+  split
+  · assumption
+  · rename_i hlen
+    split
+    · simp [List.length_take]; omega
+    · rename_i ds hds
+      simp only
+      split
+      · simp [List.length_take]; omega
+      · rename_i hroom
+        obtain ⟨hd, base, rfl⟩ := sdnDigits_some' hds
+        have hk := suffixOf_length ds
+        simp only [List.length_append, List.length_take, List.length_drop, hk] at hlen ⊢
+        omega
+
+theorem Shape.lengthFix {s : Str} (h : Shape s) : Shape (lengthFix s) := by
+  by_cases hle : s.length ≤ limit
+  · rw [lengthFix_of_le hle]; exact h
+  · have h2 : 2 ≤ s.length := by simp only [limit] at hle; omega
+    unfold Spydr.Names.lengthFix
+    rw [if_neg hle]
+    split
+    · exact h.take limit (by decide) h2
+    · rename_i ds hds
+      simp only
+      split
+      · exact h.take limit (by decide) h2
+      · rename_i hroom
+        obtain ⟨hd, base, rfl⟩ := sdnDigits_some' hds
+        have hk := suffixOf_length ds
+        have hdrop : List.drop ((base ++ suffixOf ds).length - (ds.length + 6)) (base ++ suffixOf ds) = suffixOf ds := by
+          rw [List.length_append, hk]
+          have : base.length + (ds.length + 6) - (ds.length + 6) = base.length := by omega
+          rw [this, List.drop_left]
+        rw [hdrop]
+        apply Shape.take_append h _ (by omega) (suffixOf_ok hd)
+        rw [List.length_append, hk]; omega
+
+theorem Good_lengthFix {s : Str} (h : Shape s) : Good (lengthFix s) :=
+  ⟨h.lengthFix, lengthFix_length_le s⟩
+
+theorem lengthFix_ne_nil {s : Str} (h : s ≠ []) : lengthFix s ≠ [] := by
+  by_cases hle : s.length ≤ limit
+  · rw [lengthFix_of_le hle]; exact h
+  · unfold lengthFix
+    rw [if_neg hle]
+    have h1 : s.take limit ≠ [] := by
+      cases s with
+      | nil => exact absurd rfl h
+      | cons c r => simp [limit]
+    split
+    · exact h1
+    · rename_i ds hds
+      simp only
+      split
+      · exact h1
+      · obtain ⟨hd, base, rfl⟩ := sdnDigits_some' hds
+        have hk := suffixOf_length ds
+        intro hnil
+        have := congrArg List.length hnil
+        simp only [List.length_append, List.length_take, List.length_drop, hk, List.length_nil] at this
+        omega
+
+theorem NoUpper.lengthFix {s : Str} (h : NoUpper s) : NoUpper (lengthFix s) := by
+  unfold Spydr.Names.lengthFix
+  split
+  · exact h
+  · split
+    · exact h.take _
+    · simp only
+      split
+      · exact h.take _
+      · exact (h.take _).append (h.drop _)
+
+/-! ### `charsFix` -/
+
+theorem all_okChar_map_sub (r : Str) : (r.map sub).all okChar = true := by
+  rw [List.all_eq_true]
+  intro x hx
+  obtain ⟨y, _, rfl⟩ := List.mem_map.mp hx
+  exact okChar_sub y
+
+theorem sub_of_isAlpha {c : Char} (h : c.isAlpha = true) : sub c = c := by
+  unfold sub; rw [if_pos]; simp [Char.isAlphanum, h]
+
+theorem Good_charsFix {s : Str} (h : s ≠ []) : Good (charsFix s) := by
+  unfold charsFix
+  apply Good_lengthFix
+  cases s with
+  | nil => exact absurd rfl h
+  | cons c r =>
+    split
+    · rename_i hg
+      simp only [charsGood, List.all_cons, Bool.and_eq_true] at hg
+      exact ⟨Or.inl hg.1, hg.2.2⟩
+    · simp only
+      split
+      · rename_i hc
+        simp only [List.map_cons, sub_of_isAlpha hc]
+        exact ⟨Or.inl hc, all_okChar_map_sub r⟩
+      · exact ⟨Or.inr ⟨rfl, by simp⟩, all_okChar_map_sub (c :: r)⟩
+
+/-! ### decimal digits -/
+
+theorem digits_toDigits (n : Nat) : Digits (Nat.toDigits 10 n) :=
+  ⟨Nat.toDigits_ne_nil, fun _ hc => Nat.isDigit_of_mem_toDigits (by decide) (by decide) hc⟩
+
+theorem ofDigitChars_lt {ds : Str} (h : ∀ c ∈ ds, c.isDigit = true) :
+    Nat.ofDigitChars 10 ds 0 < 10 ^ ds.length := by
+  induction ds with
+  | nil => simp
+  | cons c cs ih =>
+    have hc : c.isDigit = true := h c (by simp)
+    have ih' := ih (fun x hx => h x (by simp [hx]))
+    rw [Nat.ofDigitChars_cons, Nat.ofDigitChars_eq_ofDigitChars_zero]
+    rw [isDigit_iff] at hc
+    simp only [List.length_cons, Nat.pow_succ, Char.reduceToNat, Nat.mul_zero, Nat.zero_add]
+    have hm : 10 ^ cs.length * (c.toNat - 48) ≤ 10 ^ cs.length * 9 := Nat.mul_le_mul_left _ (by omega)
+    omega
+
+/-! ### `bump` -/
+
+theorem bump_none {c : Str} (h : sdnDigits c = none) : bump c = c ++ suffixOf ['1'] := by
+  unfold bump; rw [h]; simp [suffixOf]
+
+theorem bump_some {base ds : Str} (hd : Digits ds) :
+    bump (base ++ suffixOf ds) =
+      base ++ suffixOf (Nat.toDigits 10 (Nat.ofDigitChars 10 ds 0 + 1)) := by
+  unfold bump; rw [sdnDigits_append' hd]
+  simp only
+  have : (base ++ suffixOf ds).length - (ds.length + 1) = (base ++ sdnPre).length := by
+    simp [suffixOf, sdnPre]; omega
+  rw [this]
+  have h2 : base ++ suffixOf ds = (base ++ sdnPre) ++ (ds ++ ['_']) := by simp [suffixOf]
+  rw [h2, List.take_left]
+  simp [suffixOf]
+
+theorem digits_one : Digits ['1'] := ⟨by simp, by intro c hc; simp at hc; subst hc; decide⟩
+
+theorem NoUpper.suffixOf {ds : Str} (hd : Digits ds) : NoUpper (suffixOf ds) := by
+  unfold Spydr.Names.suffixOf
+  refine (noUpper_sdnPre.append (noUpper_of_digits hd.2)).append ?_
+  intro c hc; simp at hc; subst hc; decide
+
+theorem NoUpper.bump {c : Str} (h : NoUpper c) : NoUpper (bump c) := by
+  cases hs : sdnDigits c with
+  | none => rw [bump_none hs]; exact h.append (NoUpper.suffixOf digits_one)
+  | some ds =>
+    obtain ⟨hd, base, rfl⟩ := sdnDigits_some' hs
+    rw [bump_some hd]
+    refine NoUpper.append ?_ (NoUpper.suffixOf (digits_toDigits _))
+    intro x hx; exact h x (List.mem_append_left _ hx)
+
+/-- a candidate whose shape is fine never has an empty stem before its suffix -/
+theorem base_ne_nil_of_shape {base ds : Str} (h : Shape (base ++ suffixOf ds)) : base ≠ [] := by
+  rintro rfl
+  simp only [List.nil_append, suffixOf, sdnPre, List.cons_append] at h
+  exact h.head_ne_underscore rfl
+
+theorem Shape.bump {c : Str} (h : Shape c) : Shape (bump c) := by
+  cases hs : sdnDigits c with
+  | none => rw [bump_none hs]; exact h.append (suffixOf_ok digits_one) (suffixOf_ne_nil _)
+  | some ds =>
+    obtain ⟨hd, base, rfl⟩ := sdnDigits_some' hs
+    rw [bump_some hd]
+    have hb : base ≠ [] := base_ne_nil_of_shape h
+    have hbs : Shape (base ++ suffixOf ds) := h
+    -- the stem alone followed by the new suffix
+    have h1 : 1 ≤ base.length := List.length_pos_iff.mpr hb
+    have := Shape.take_append hbs base.length h1 (suffixOf_ok (digits_toDigits (Nat.ofDigitChars 10 ds 0 + 1)))
+      (by simp [suffixOf_length]; omega)
+    simpa using this
+
 end Spydr.Names
